@@ -24,7 +24,8 @@ RULE = (
     "model's samples of the finalized files; after the clean close no tmp.* remains and the reader returns the whole "
     "model. A drawn subset of points is executed as a real SIGKILL and the resulting tree compared with the paused "
     "snapshot. Exhaustive over the points of each generated sequence. Non-trivial point: a finalized file and an open "
-    "tmp. file coexist, or the point lies between a close and its rename."
+    "tmp. file coexist, or the point lies between a close and its rename (distinct_nontrivial counts such points, "
+    "which are distinct by construction within a sequence, plus the sequences with >= 30 % of them)."
 )
 ASSUMPTIONS = [
     "a crash is the death of the process with the page cache intact (as the property states)",
@@ -260,6 +261,7 @@ def run_case(case):
             res.evaluations += 1
             shutil.rmtree(kd, ignore_errors=True)
         res.nontrivial = judge.nt_points * 10 >= judge.points * 3
+        res.nt_units = judge.nt_points
         res.cls("writer:" + case["writer"])
         res.classes.append("points:%d" % 0) if False else None
     return res
